@@ -5,6 +5,7 @@ import RcVerif.Model.SimInst
 import RcVerif.Model.Route
 import RcVerif.Model.Cluster
 import RcVerif.Model.AuthIp
+import RcVerif.Model.Elastic
 /-
   Line-protocol driver: one request per input line, one canonical answer per
   output line. Core-only, compiled as `rcdriver`.
@@ -208,12 +209,169 @@ def authipLine (rest : String) : String :=
     | _ => (w, outs ++ ["bad-op"])) (({} : AuthIp.WL), [])
   String.intercalate " " outs
 
+/-! ### buffers: `ring <size> | op ; op ...`, `llist | op ; ...`, `elastic <maxStatic> | op ; ...`
+    Written bytes come from one per-case stream (byte k of the case is `k % 251`); read / peeked bytes are
+    reported as a digest `len:first:weighted-sum`. -/
+
+def streamBytes (start len : Nat) : Bytes := (List.range len).map (fun i => UInt8.ofNat ((start + i) % 251))
+
+def digest (b : Bytes) : String :=
+  let first := match b with | x :: _ => x.toNat | [] => 0
+  let (_, sum) := b.foldl (fun (acc : Nat × Nat) x => (acc.1 + 1, (acc.2 + acc.1 * x.toNat) % 65521)) (1, 0)
+  s!"{b.length}:{first}:{sum}"
+
+def parseInt (s : String) : Option Int :=
+  if s.startsWith "-" then (s.drop 1).toString.toNat?.map (fun n => -(n : Int)) else s.toNat?.map (fun n => (n : Int))
+
+def b01 (b : Bool) : String := if b then "1" else "0"
+
+def ringSummary (rb : Ring.Ring) : String :=
+  s!"[{Ring.buffered rb} {Ring.available rb} {rb.size} {rb.buf.length} {b01 rb.isEmpty} {b01 (Ring.isFull rb)}]"
+
+def splitOps (s : String) : List (List String) :=
+  (((s.splitOn ";").map String.trimAscii).map (·.toString) |>.filter (· ≠ "")).map (fun ev => (ev.splitOn " ").filter (· ≠ ""))
+
+def ringLine (rest : String) : String :=
+  match rest.splitOn "|" with
+  | [hd, ops] =>
+    match hd.trimAscii.toString.toNat? with
+    | none => "bad-op"
+    | some size =>
+      let (_, _, outs) := (splitOps ops).foldl (fun (acc : Ring.Ring × Nat × List String) op =>
+        let (rb, k, outs) := acc
+        match op with
+        | ["w", l] => match l.toNat? with
+          | some l => let rb' := Ring.write rb (streamBytes k l); (rb', k + l, outs ++ [ringSummary rb'])
+          | none => (rb, k, outs ++ ["bad-op"])
+        | ["b"] => let rb' := Ring.writeByte rb (UInt8.ofNat (k % 251)); (rb', k + 1, outs ++ [ringSummary rb'])
+        | ["p", n] => match parseInt n with
+          | some n => let (h, t) := Ring.peek rb n; (rb, k, outs ++ [s!"{digest h}/{digest t} {ringSummary rb}"])
+          | none => (rb, k, outs ++ ["bad-op"])
+        | ["d", n] => match parseInt n with
+          | some n => let (rb', d) := Ring.discard rb n; (rb', k, outs ++ [s!"{d} {ringSummary rb'}"])
+          | none => (rb, k, outs ++ ["bad-op"])
+        | ["r", n] => match n.toNat? with
+          | some n => let (rb', out, err) := Ring.read rb n; (rb', k, outs ++ [s!"{digest out}/{b01 err} {ringSummary rb'}"])
+          | none => (rb, k, outs ++ ["bad-op"])
+        | ["rb"] => let (rb', b) := Ring.readByte rb
+                    (rb', k, outs ++ [s!"{match b with | some x => toString x.toNat | none => "-"} {ringSummary rb'}"])
+        | ["bytes"] => (rb, k, outs ++ [s!"{digest (Ring.content rb)} {ringSummary rb}"])
+        | ["reset"] => let rb' := Ring.reset rb; (rb', k, outs ++ [ringSummary rb'])
+        | _ => (rb, k, outs ++ ["bad-op"])) (Ring.new size, 0, [])
+      String.intercalate " | " outs
+  | _ => "bad-op"
+
+def llSummary (l : LList.LL) : String := s!"[{l.bytes} {l.size} {b01 (LList.isEmpty l)}]"
+
+def digests (l : List Bytes) : String := String.intercalate "," (l.map digest)
+
+def parseLens (s : String) : Option (List Nat) := if s = "-" then some [] else (s.splitOn ",").mapM String.toNat?
+
+/-- cut the next `lens` slices off the stream -/
+def streamSlices (k : Nat) (lens : List Nat) : List Bytes × Nat :=
+  lens.foldl (fun (acc : List Bytes × Nat) l => (acc.1 ++ [streamBytes acc.2 l], acc.2 + l)) ([], k)
+
+def llistLine (rest : String) : String :=
+  let ops := match rest.splitOn "|" with | [_, ops] => ops | _ => rest
+  let (_, _, outs) := (splitOps ops).foldl (fun (acc : LList.LL × Nat × List String) op =>
+    let (l, k, outs) := acc
+    match op with
+    | ["w", n] => match n.toNat? with
+      | some n => let l' := LList.pushBack l (streamBytes k n); (l', k + n, outs ++ [llSummary l'])
+      | none => (l, k, outs ++ ["bad-op"])
+    | ["f", n] => match n.toNat? with
+      | some n => let l' := LList.pushFront l (streamBytes k n); (l', k + n, outs ++ [llSummary l'])
+      | none => (l, k, outs ++ ["bad-op"])
+    | ["p", n] => match parseInt n with
+      | some n => (l, k, outs ++ [s!"{digests (LList.peek l n)} {llSummary l}"])
+      | none => (l, k, outs ++ ["bad-op"])
+    | ["pw", n, lens] => match parseInt n, parseLens lens with
+      | some n, some lens =>
+        let (bs, _) := streamSlices 100000 lens
+        (l, k, outs ++ [s!"{digests (LList.peekWithBytes l n bs)} {llSummary l}"])
+      | _, _ => (l, k, outs ++ ["bad-op"])
+    | ["d", n] => match parseInt n with
+      | some n => let (l', d) := LList.discard l n; (l', k, outs ++ [s!"{d} {llSummary l'}"])
+      | none => (l, k, outs ++ ["bad-op"])
+    | ["r", n] => match n.toNat? with
+      | some n => let (l', out) := LList.read l n; (l', k, outs ++ [s!"{digest out} {llSummary l'}"])
+      | none => (l, k, outs ++ ["bad-op"])
+    | ["reset"] => (LList.reset l, k, outs ++ [llSummary (LList.reset l)])
+    | _ => (l, k, outs ++ ["bad-op"])) (({} : LList.LL), 0, [])
+  String.intercalate " | " outs
+
+def eringSummary (e : Elastic.ERing) : String :=
+  s!"{e.buffered} {e.len} {e.cap} {e.available} {b01 e.isEmpty}"
+
+def elasticSummary (a : Elastic.EBuf) (r : Elastic.ERing) : String :=
+  s!"[A {a.buffered} {b01 a.isEmpty} R {eringSummary r}]"
+
+structure EState where
+  pool : Elastic.Pool := {}
+  a : Elastic.EBuf
+  r : Elastic.ERing := {}
+  k : Nat := 0
+
+def elasticLine (rest : String) : String :=
+  match rest.splitOn "|" with
+  | [hd, ops] =>
+    match hd.trimAscii.toString.toNat? with
+    | none => "bad-op"
+    | some maxStatic =>
+      let (_, outs) := (splitOps ops).foldl (fun (acc : EState × List String) op =>
+        let (st, outs) := acc
+        let fin (st' : EState) (o : String) : EState × List String :=
+          (st', outs ++ [(if o = "" then "" else o ++ " ") ++ elasticSummary st'.a st'.r])
+        match op with
+        | ["w", n] => match n.toNat? with
+          | some n => let (pool, a) := st.a.write st.pool (streamBytes st.k n); fin { st with pool := pool, a := a, k := st.k + n } ""
+          | none => (st, outs ++ ["bad-op"])
+        | ["v", lens] => match parseLens lens with
+          | some lens =>
+            let (bs, k') := streamSlices st.k lens
+            let (pool, a) := st.a.writev st.pool bs
+            fin { st with pool := pool, a := a, k := k' } ""
+          | none => (st, outs ++ ["bad-op"])
+        | ["p", n] => match parseInt n with
+          | some n => fin st (digests (st.a.peek n))
+          | none => (st, outs ++ ["bad-op"])
+        | ["d", n] => match parseInt n with
+          | some n => let (pool, a, d) := st.a.discard st.pool n; fin { st with pool := pool, a := a } s!"{d}"
+          | none => (st, outs ++ ["bad-op"])
+        | ["r", n] => match n.toNat? with
+          | some n => let (pool, a, out) := st.a.read st.pool n; fin { st with pool := pool, a := a } (digest out)
+          | none => (st, outs ++ ["bad-op"])
+        | ["reset", n] => match parseInt n with
+          | some n => fin { st with a := st.a.reset n } ""
+          | none => (st, outs ++ ["bad-op"])
+        | ["release"] => let (pool, a) := st.a.release st.pool; fin { st with pool := pool, a := a } ""
+        | ["Rw", n] => match n.toNat? with
+          | some n => let (pool, r) := st.r.write st.pool (streamBytes st.k n); fin { st with pool := pool, r := r, k := st.k + n } ""
+          | none => (st, outs ++ ["bad-op"])
+        | ["Rp", n] => match parseInt n with
+          | some n => let (h, t) := st.r.peek n; fin st s!"{digest h}/{digest t}"
+          | none => (st, outs ++ ["bad-op"])
+        | ["Rd", n] => match parseInt n with
+          | some n => let (pool, r, d, err) := st.r.discard st.pool n; fin { st with pool := pool, r := r } s!"{d}/{b01 err}"
+          | none => (st, outs ++ ["bad-op"])
+        | ["Rr", n] => match n.toNat? with
+          | some n => let (pool, r, out, err) := st.r.read st.pool n; fin { st with pool := pool, r := r } s!"{digest out}/{b01 err}"
+          | none => (st, outs ++ ["bad-op"])
+        | ["Rreset"] => fin { st with r := st.r.reset } ""
+        | ["Rdone"] => let (pool, r) := st.r.release st.pool; fin { st with pool := pool, r := r } ""
+        | _ => (st, outs ++ ["bad-op"])) (({ a := { maxStatic := maxStatic } } : EState), [])
+      String.intercalate " | " outs
+  | _ => "bad-op"
+
 def stepLine (line : String) : String :=
   let line := line.trimAscii.toString
   if line.startsWith "sim " then simLine (line.drop 4).toString else
   if line.startsWith "route " then routeLine (line.drop 6).toString else
   if line.startsWith "cluster " then clusterLine (line.drop 8).toString else
   if line.startsWith "authip " then authipLine (line.drop 7).toString else
+  if line.startsWith "ring " then ringLine (line.drop 5).toString else
+  if line.startsWith "llist " then llistLine (line.drop 6).toString else
+  if line.startsWith "elastic " then elasticLine (line.drop 8).toString else
   match (line.trimAscii.toString.splitOn " ").filter (· ≠ "") with
   | ["hash", k] =>
     match fromHex k with
